@@ -8,6 +8,7 @@
 
 use std::collections::BTreeSet;
 use std::future::Future;
+use std::str::FromStr;
 use std::sync::Arc;
 use std::task::{Context, Poll, Wake, Waker};
 use routinator::operation::Server;
@@ -24,7 +25,7 @@ use crate::report::{Ctx, Report};
 use crate::util;
 
 #[derive(Clone, Copy, Debug, Eq, PartialEq)]
-pub enum Ev { Ok(usize), Fail(RunOutcome, &'static str) }
+pub enum Ev { Ok(usize), Fail(RunOutcome, &'static str), RealFail(&'static str) }
 
 pub fn events() -> Vec<Ev> {
     let mut res = vec![Ev::Ok(0), Ev::Ok(1), Ev::Ok(2)];
@@ -32,7 +33,70 @@ pub fn events() -> Vec<Ev> {
         res.push(Ev::Fail(RunOutcome::Retry, stage));
         res.push(Ev::Fail(RunOutcome::Fatal, stage));
     }
+    // runs that fail on their own (no injection): a fatal I/O error while
+    // reading a stored publication point
+    res.push(Ev::RealFail("stored-point-unreadable"));
     res
+}
+
+/// Engines whose runs fail without any injection.
+struct RealEnvs {
+    /// a TAL without any stored trust anchor certificate: the initial
+    /// (store-only) run fails retryably
+    no_ta: (routinator::Config, &'static routinator::engine::Engine),
+    /// a stored publication point that cannot be read: fatal
+    unreadable: (routinator::Config, &'static routinator::engine::Engine),
+}
+
+thread_local! {
+    static REAL: std::cell::RefCell<Option<RealEnvs>> = const { std::cell::RefCell::new(None) };
+}
+
+static REAL_SEQ: std::sync::atomic::AtomicU64 = std::sync::atomic::AtomicU64::new(0);
+
+fn make_real(scratch: &std::path::Path) -> RealEnvs {
+    use crate::rpkigen::{Builder, CaSpec, Gen, ObjSpec, Stale, TalSpec, TreeSpec};
+    use crate::etree::{self, Case};
+    let n = REAL_SEQ.fetch_add(1, std::sync::atomic::Ordering::SeqCst);
+    let gen = Gen::load();
+    let mut ta = CaSpec::new("ta0", 0, &format!("ta{n}.c33.example"), "repo");
+    ta.v4 = vec![(std::net::Ipv4Addr::new(10, 0, 0, 0), 8)];
+    ta.asns = vec![(64496, 64511)];
+    ta.objs = vec![ObjSpec::roa("r0", 64496, "10.200.0.0", 16, 16)];
+    let ta_uri = format!("rsync://ta{n}.c33.example/repo/ta0.cer");
+    let spec = TreeSpec { tals: vec![TalSpec { name: "alpha".into(), ta_uri, ca: ta.clone(), wrong_key: false, https_uri: None }] };
+    let image = Builder::new(&gen, Stale::Reject).build(&spec);
+    // (a) TAL, empty store
+    let case_a = Case::new(scratch.join(format!("real-a{n}")));
+    case_a.write_tals(&image);
+    let config_a = case_a.config();
+    let mut engine_a = routinator::engine::Engine::new(&config_a, false).expect("engine");
+    engine_a.ignite().expect("ignite");
+    // (b) filled store, then the TA's stored point made unreadable
+    let case_b = Case::new(scratch.join(format!("real-b{n}")));
+    case_b.write_tals(&image);
+    case_b.publish(&image);
+    let config_b = case_b.config();
+    etree::run(&config_b, false, &routinator::slurm::LocalExceptions::empty()).expect("filling run");
+    let store = routinator::store::Store::new(&config_b).expect("store");
+    let mft = rpki::uri::Rsync::from_str(&ta.mft_uri()).unwrap();
+    let path = store.verif_point_path(None, &mft);
+    std::fs::remove_file(&path).expect("stored point file exists");
+    std::fs::create_dir_all(&path).unwrap();
+    let mut engine_b = routinator::engine::Engine::new(&config_b, false).expect("engine");
+    engine_b.ignite().expect("ignite");
+    RealEnvs {
+        no_ta: (config_a, Box::leak(Box::new(engine_a))),
+        unreadable: (config_b, Box::leak(Box::new(engine_b))),
+    }
+}
+
+fn with_real<R>(scratch: &std::path::Path, f: impl FnOnce(&RealEnvs) -> R) -> R {
+    REAL.with(|r| {
+        let mut r = r.borrow_mut();
+        if r.is_none() { *r = Some(make_real(scratch)) }
+        f(r.as_ref().unwrap())
+    })
 }
 
 struct Noop;
@@ -118,6 +182,37 @@ fn run_seq(env: &Env, seq: &[Ev], states: &mut BTreeSet<String>) -> Result<(u64,
                     )))
                 }
             }
+            Ev::RealFail(kind) => {
+                failing += 1;
+                let scratch = env.config.cache_dir.parent().unwrap().to_path_buf();
+                // the very first run of a server is the initial one: there
+                // the TAL without a stored certificate fails the run
+                let (fatal_expected, res) = with_real(&scratch, |real| {
+                    let exc = data::exceptions_for(&sets[3]);
+                    if i == 0 {
+                        (false, Server::verif_process_once(&real.no_ta.0, real.no_ta.1, &history, &mut notify, &exc, true))
+                    }
+                    else {
+                        (true, Server::verif_process_once(&real.unreadable.0, real.unreadable.1, &history, &mut notify, &exc, false))
+                    }
+                });
+                let what = if i == 0 { "initial run with a TAL whose trust anchor certificate is not stored" } else { *kind };
+                match res {
+                    Ok(()) => return Err(("failing-run-reported-success".into(), format!(
+                        "history {hist}: a run that cannot complete ({what}) was reported successful and its result published"
+                    ))),
+                    Err(e) => if e.is_fatal() != fatal_expected {
+                        return Err(("harness".into(), format!("history {hist}: unexpected failure kind for {what}")))
+                    }
+                }
+                let after = observe(&history, &httpd);
+                if before != after {
+                    return Err(("served-state-changed".into(), format!("history {hist}: the failed run ({what}) changed what is served")))
+                }
+                if poll_notified(&mut rx) {
+                    return Err(("notification-after-failed-run".into(), format!("history {hist}: a notification is pending after the failed run ({what})")))
+                }
+            }
             Ev::Fail(outcome, stage) => {
                 failing += 1;
                 if *stage == "start" {
@@ -183,6 +278,7 @@ fn ev_json(seq: &[Ev]) -> Value {
         Ev::Ok(d) => format!("ok:{d}"),
         Ev::Fail(RunOutcome::Retry, s) => format!("retry:{s}"),
         Ev::Fail(_, s) => format!("fatal:{s}"),
+        Ev::RealFail(k) => format!("real:{k}"),
     }).collect::<Vec<_>>())
 }
 
@@ -195,6 +291,7 @@ fn ev_parse(v: &Value) -> Vec<Ev> {
             "ok" => Some(Ev::Ok(r.parse().ok()?)),
             "retry" => Some(Ev::Fail(RunOutcome::Retry, stage?)),
             "fatal" => Some(Ev::Fail(RunOutcome::Fatal, stage?)),
+            "real" => Some(Ev::RealFail("stored-point-unreadable")),
             _ => None
         }
     }).collect()).unwrap_or_default()
@@ -209,7 +306,10 @@ pub fn run(ctx: &Ctx) -> Report {
     rep.rule = "every sequence of `depth` events over {successful run \
         installing data set 0, 1 or 2; run failing retryably or fatally at \
         the start, after validation, or after cleanup (forced through the \
-        run-outcome hooks)} executed through the server's real update \
+        run-outcome hooks); run failing on its own: as first event the \
+        initial store-only run of an engine with a TAL whose trust anchor \
+        certificate is not stored (retryable), later a run of an engine \
+        whose stored publication point cannot be read (fatal)} executed through the server's real update \
         sequence on a fresh history; around every failing event the full \
         observable state is compared: readiness, notify state, reset \
         answer, serial-query answer for every serial 0..current+1, the \
@@ -250,7 +350,7 @@ pub fn run(ctx: &Ctx) -> Report {
                 Err((class, msg)) => {
                     rep.outcome(format!("VIOLATION:{class}"));
                     // shortest failing prefix is in the message; fingerprint by class and failing event kind
-                    let kind = seq.iter().rev().find_map(|e| match e { Ev::Fail(o, s) => Some(format!("{o:?}@{s}")), _ => None }).unwrap_or_default();
+                    let kind = seq.iter().rev().find_map(|e| match e { Ev::Fail(o, s) => Some(format!("{o:?}@{s}")), Ev::RealFail(k) => Some(k.to_string()), _ => None }).unwrap_or_default();
                     rep.violation(format!("failed-run:{class}:{kind}"), msg, json!({"events": ev_json(&seq)}));
                 }
             }
